@@ -174,7 +174,7 @@ def c09(ctx):
                    'C3b: mzd_cmp is two-sided on each compared quantity; dimensions are compared before any word is read.'),
       not_decided='LSB-first ordering inside a word, transitivity, pivot choice (value level)')
 def c17(ctx):
-    from . import masks as M
+    from . import masks as M, pivot as PV
     out = []
     for cfg in _configs(ctx):
         prog = _prog(ctx, cfg)
@@ -182,6 +182,7 @@ def c17(ctx):
         ctx.add(out, lab, M.rule_C3, ctx, prog, lab)
         ctx.add(out, lab, M.rule_C3b, ctx, prog, lab)
         ctx.add(out, lab, M.rule_S1, ctx, prog, lab)
+        ctx.add(out, lab, PV.rule_FP1, ctx, prog, lab)
     _selftest(ctx, out, ['S1'])
     return out
 
@@ -195,7 +196,7 @@ def c17(ctx):
                    '(word index, bit) pair is built from one value of the column variable.'),
       not_decided='the swap arithmetic itself (which bits move where)')
 def c13(ctx):
-    from . import coords as CO, intervals as IV
+    from . import coords as CO, intervals as IV, bitrange as BR
     from . import masks as M, families as B, contracts as CT
     out = []
     for cfg in _configs(ctx, extra=[dict(frontend.host_config(), sse2=0)]):
@@ -208,6 +209,7 @@ def c13(ctx):
         ctx.add(out, lab, CO.rule_W2, ctx, prog, lab)
         ctx.add(out, lab, CO.rule_W2b, ctx, prog, lab)
         ctx.add(out, lab, IV.rule_C7, ctx, prog, lab)
+        ctx.add(out, lab, BR.rule_C7c, ctx, prog, lab)
     return out
 
 
@@ -246,6 +248,8 @@ def c10(ctx):
         lab = _label(cfg)
         ctx.add(out, lab, P.rule_C5, ctx, prog, lab)
         ctx.add(out, lab, P.rule_C6, ctx, prog, lab)
+        ctx.add(out, lab, P.rule_C6d, ctx, prog, lab)
+        ctx.add(out, lab, P.rule_C6e, ctx, prog, lab)
         ctx.add(out, lab, M.rule_C1, ctx, prog, lab)
         ctx.add(out, lab, M.rule_C4, ctx, prog, lab)
         ctx.add(out, lab, CR.rule_A2, ctx, prog, lab)
@@ -296,6 +300,7 @@ def c01(ctx):
         ctx.add(out, lab, M.rule_C2_callers, ctx, prog, lab)
         ctx.add(out, lab, IV.rule_F9, ctx, prog, lab)
         ctx.add(out, lab, P.rule_C6d, ctx, prog, lab)
+        ctx.add(out, lab, P.rule_C6e, ctx, prog, lab)
         ctx.add(out, lab, M.rule_C3c, ctx, prog, lab)
     return out
 
@@ -308,6 +313,7 @@ def c01(ctx):
                    'mzd_make_table); E1 on the echelonisation functions.'),
       not_decided='rank, RREF uniqueness, pivot search, density switch (value level)')
 def c02(ctx):
+    from . import pivot as PV
     from . import families as B, align as AL, masks as M, resources as R
     out = []
     for cfg in _configs(ctx, extra=[dict(frontend.host_config(), sse2=0)]):
@@ -319,6 +325,7 @@ def c02(ctx):
         ctx.add(out, lab, AL.rule_D1, ctx, prog, lab, only_funcs=ECH_FUNCS)
         ctx.add(out, lab, M.rule_C2_callers, ctx, prog, lab)
         ctx.add(out, lab, R.rule_E1, ctx, prog, lab, only_funcs=ECH_FUNCS | {'mzd_echelonize_m4ri', 'mzd_echelonize_pluq', 'mzd_echelonize', 'mzd_top_echelonize_m4ri'}, rule='E1-ech')
+        ctx.add(out, lab, PV.rule_FP1, ctx, prog, lab)
     return out
 
 
@@ -330,7 +337,7 @@ def c02(ctx):
                    '(word index and bit mask of a pivot test come from the same value of the column variable).'),
       not_decided='P*L*U*Q = A, rank profile, zero storage outside L and U (value level)')
 def c03(ctx):
-    from . import coords as CO
+    from . import coords as CO, pivot as PV, blockmove as BM
     from . import families as B, contracts as CT, resources as R
     out = []
     for cfg in _configs(ctx, extra=[dict(frontend.host_config(), sse2=0)]):
@@ -346,6 +353,8 @@ def c03(ctx):
         ctx.add(out, lab, R.rule_E1, ctx, prog, lab, only_funcs=PLE_FUNCS | {'ple_table_init', 'ple_table_free'}, rule='E1-ple')
         ctx.add(out, lab, CO.rule_W2, ctx, prog, lab)
         ctx.add(out, lab, CO.rule_W2b, ctx, prog, lab)
+        ctx.add(out, lab, PV.rule_FP1, ctx, prog, lab)
+        ctx.add(out, lab, BM.rule_CL1, ctx, prog, lab)
     return out
 
 
@@ -370,6 +379,8 @@ def c04(ctx):
         ctx.add(out, lab, AL.rule_D1, ctx, prog, lab, only_funcs={'_mzd_trsm_upper_left_russian', '_mzd_trsm_lower_left_russian'})
         ctx.add(out, lab, M.rule_C1, ctx, prog, lab, only=TRSM_FUNCS | {'_mzd_trsm_lower_left', '_mzd_trsm_upper_left', '_mzd_trsm_upper_right_base', '_mzd_trsm_lower_right_base'}, rule='C1-trsm')
         ctx.add(out, lab, TR.rule_T1, ctx, prog, lab)
+        ctx.add(out, lab, B.rule_B7p, ctx, prog, lab)
+    _selftest(ctx, out, ['B7p'])
     return out
 
 
@@ -388,6 +399,7 @@ def c18(ctx):
         ctx.add(out, lab, I.rule_I1, ctx, prog, lab)
         ctx.add(out, lab, I.rule_I2, ctx, prog, lab)
         ctx.add(out, lab, I.rule_I3, ctx, prog, lab)
+        ctx.add(out, lab, I.rule_I4, ctx, prog, lab)
         ctx.add(out, lab, B.rule_B1, ctx, prog, lab, only_funcs=IO_FUNCS)
         ctx.add(out, lab, R.rule_E1, ctx, prog, lab, only_funcs=IO_FUNCS, rule='E1-io')
         ctx.add(out, lab, NC.rule_E3_third_party, ctx, prog, lab)
@@ -409,6 +421,7 @@ def c19(ctx):
         ctx.add(out, lab, W.rule_C8, ctx, prog, lab)
         ctx.add(out, lab, M.rule_W1, ctx, prog, lab)
         ctx.add(out, lab, B.rule_B7, ctx, prog, lab)
+        ctx.add(out, lab, B.rule_B7p, ctx, prog, lab)
         ctx.add(out, lab, B.rule_B1, ctx, prog, lab, only_funcs=BIT_FUNCS)
     return out
 
@@ -422,6 +435,7 @@ def c19(ctx):
                    '[1, 16] for every cache triple.'),
       not_decided='equality of computed values across regimes (value level)')
 def c12(ctx):
+    from . import blockmove as BM
     from . import configs as J, masks as M, families as B, contracts as CT, const_rules as CR
     h = frontend.host_config()
     if ctx.tier == 'thorough':
@@ -443,6 +457,7 @@ def c12(ctx):
         ctx.add(out, lab, B.rule_B2c, ctx, prog, lab, rule='J3-B2c')
         ctx.add(out, lab, CT.rule_F1, ctx, prog, lab, rule='J3-F1')
         ctx.add(out, lab, CR.rule_A1, ctx, prog, lab, rule='J3-A1')
+        ctx.add(out, lab, BM.rule_CL1, ctx, prog, lab, rule='J3-CL1')
     return out
 
 
@@ -502,6 +517,8 @@ def c16(ctx):
         ctx.add(out, lab, H.rule_H4, ctx, prog, lab)
         ctx.add(out, lab, IV.rule_F9, ctx, prog, lab)
         ctx.add(out, lab, PU.rule_C6d, ctx, prog, lab)
+        ctx.add(out, lab, PU.rule_C6e, ctx, prog, lab)
+        ctx.add(out, lab, CT.rule_F10, ctx, prog, lab)
         ctx.add(out, lab, CT.rule_F6, ctx, prog, lab, only_funcs={'_mzd_mul_mp4', '_mzd_addmul_mp4', 'mzd_mul_mp', 'mzd_addmul_mp'})
         ctx.add(out, lab, CT.rule_F7, ctx, prog, lab, only_funcs={'_mzd_mul_mp4', '_mzd_addmul_mp4', 'mzd_mul_mp', 'mzd_addmul_mp'})
         if cfg['mmc']:      # without the block cache there is nothing to guard
@@ -557,6 +574,7 @@ SOLVE_FUNCS = {'mzd_solve_left', '_mzd_solve_left', 'mzd_pluq_solve_left', '_mzd
                    'consistency update Y2 += H*Y1, the back solve and the permutation applications); E1 on the solve functions.'),
       not_decided='that the verdict equals the rank test and that A*X = B (value level)')
 def c06(ctx):
+    from . import blockmove as BM, pivot as PV
     from . import contracts as CT, resources as R
     out = []
     for cfg in _configs(ctx):
@@ -568,6 +586,9 @@ def c06(ctx):
         ctx.add(out, lab, CT.rule_F6, ctx, prog, lab, only_funcs=SOLVE_FUNCS)
         ctx.add(out, lab, CT.rule_F7, ctx, prog, lab, only_funcs=SOLVE_FUNCS)
         ctx.add(out, lab, R.rule_E1, ctx, prog, lab, only_funcs=SOLVE_FUNCS, rule='E1-solve')
+        ctx.add(out, lab, CT.rule_F4, ctx, prog, lab)
+        ctx.add(out, lab, BM.rule_CL1, ctx, prog, lab)
+        ctx.add(out, lab, PV.rule_FP1, ctx, prog, lab)
     return out
 
 
@@ -579,7 +600,7 @@ def c06(ctx):
                    'goto-cleanup and early-return layouts are equivalent. W2/W2b on the factorisation the routine relies on.'),
       not_decided='A*K = 0, independence of the columns, rank correctness (value level)')
 def c07(ctx):
-    from . import coords as CO
+    from . import coords as CO, pivot as PV, blockmove as BM
     from . import contracts as CT, resources as R
     out = []
     for cfg in _configs(ctx):
@@ -589,6 +610,9 @@ def c07(ctx):
         ctx.add(out, lab, CT.rule_F6, ctx, prog, lab, only_funcs={'mzd_kernel_left_pluq'})
         ctx.add(out, lab, CT.rule_F7, ctx, prog, lab, only_funcs={'mzd_kernel_left_pluq'})
         ctx.add(out, lab, R.rule_E1, ctx, prog, lab, only_funcs={'mzd_kernel_left_pluq'}, rule='E1-kernel')
+        ctx.add(out, lab, CT.rule_F4, ctx, prog, lab)
+        ctx.add(out, lab, PV.rule_FP1, ctx, prog, lab)
+        ctx.add(out, lab, BM.rule_CL1, ctx, prog, lab)
         ctx.add(out, lab, CO.rule_W2, ctx, prog, lab)
         ctx.add(out, lab, CO.rule_W2b, ctx, prog, lab)
     return out
